@@ -184,6 +184,9 @@ func runStream(e *simcore.Env, tp *simcore.Tape) {
 		repo := simmeta.New()
 		s.Install(repo)
 		flags := []string{"--stream-flush-timeout=" + []string{"1s", "5s"}[tp.Choose(2)], fmt.Sprintf("--stream-max-merge-parts=%d", tp.Range(2, 6))}
+		qpFlags, qpTag := simnode.QueryPath(tp.Choose, "stream")
+		flags = append(flags, qpFlags...)
+		_ = qpTag
 		n, err := simnode.Boot(repo, e.Dir, simnode.Engines{Stream: true}, flags)
 		if err != nil {
 			e.Fail("boot", "boot-failed", "boot: %v", err)
@@ -288,7 +291,7 @@ func runStream(e *simcore.Env, tp *simcore.Tape) {
 				if q.rule != "" {
 					by = "tag"
 				}
-				e.Fail("ordered-window", "stream:"+cls+":by-"+by, "stream query %d (%s): %s\n  returned writes: %v", qi, q, msg, clipInts(got))
+				e.Fail("ordered-window", "stream:"+cls+":by-"+by+":"+qpTag, "stream query %d (%s): %s\n  returned writes: %v", qi, q, msg, clipInts(got))
 				return
 			}
 		}
@@ -311,6 +314,9 @@ func runMeasure(e *simcore.Env, tp *simcore.Tape) {
 		repo := simmeta.New()
 		s.Install(repo)
 		flags := []string{"--measure-flush-timeout=" + []string{"1s", "5s"}[tp.Choose(2)], fmt.Sprintf("--measure-max-merge-parts=%d", tp.Range(2, 6))}
+		qpFlags, qpTag := simnode.QueryPath(tp.Choose, "measure")
+		flags = append(flags, qpFlags...)
+		_ = qpTag
 		n, err := simnode.Boot(repo, e.Dir, simnode.Engines{Measure: true}, flags)
 		if err != nil {
 			e.Fail("boot", "boot-failed", "boot: %v", err)
@@ -393,7 +399,7 @@ func runMeasure(e *simcore.Env, tp *simcore.Tape) {
 				e.Probe("reach.offset_inside_result")
 			}
 			if cls, msg := checkWindow(full, got, q.asc, q.offset, q.limit); cls != "" {
-				e.Fail("ordered-window", "measure:"+cls+":by-time", "measure query %d (%s): %s\n  returned writes: %v", qi, q, msg, clipInts(got))
+				e.Fail("ordered-window", "measure:"+cls+":by-time:"+qpTag, "measure query %d (%s): %s\n  returned writes: %v", qi, q, msg, clipInts(got))
 				return
 			}
 		}
